@@ -46,6 +46,12 @@ def build(cell, dt):
             for i in range(n):
                 M[i, (i + 1) % n] += 0.1
             return M
+    elif kind == "permuted":
+        def F(x):
+            return np.stack([x[1] ** 3 + x[1] - 2 + x[0] ** 2 / 10, x[0] - x[1] ** 2])
+
+        def J(x):
+            return np.array([[x[0] / 5, 3 * x[1] ** 2 + 1], [1.0, -2 * x[1]]], dtype=dt)
     elif kind == "noroot":
         def F(x):
             return x ** 2 + 1
@@ -70,7 +76,9 @@ def build(cell, dt):
             M[:, 0] += 1
             M[0, :] = 2 * x
             return M
-    if cell["guess"] == "nearSingular":
+    if cell["guess"] == "zeroDiagonal":
+        x0 = np.zeros(n, dtype=dt)
+    elif cell["guess"] == "nearSingular":
         x0 = np.asarray([1e-6 * (1.0 + 0.25 * i) for i in range(n)], dtype=dt)
     elif cell["guess"] == "good" and kind == "quadm1":
         x0 = np.full(n, 0.8, dtype=dt)
@@ -143,7 +151,7 @@ def check(run, replay=None):
     gen = run.generate("Systems", workers=2)
     cells = gen["cells"]
     if not thorough:
-        cells = [c for k, c in enumerate(sorted(cells, key=lambda c: str(sorted(c.items())))) if (k + run.seed) % 3 == 0 or not c["hasRoot"] or c["shape"].startswith("matrix")]
+        cells = [c for k, c in enumerate(sorted(cells, key=lambda c: str(sorted(c.items())))) if (k + run.seed) % 3 == 0 or not c["hasRoot"] or c["shape"].startswith("matrix") or c["kind"] == "permuted"]
     if replay and isinstance(replay.get("scenario"), dict) and "cell" in replay["scenario"]:
         cells = [replay["scenario"]["cell"]]
     obs = core.pool_map(cell_job, cells)
